@@ -1,0 +1,13 @@
+//go:build verif
+
+package operator
+
+import "reduction.dev/reduction/dkv"
+
+// Accessor for the verification harness (/verif, property C03). Compiled only
+// with -tags verif.
+
+// VerifDKV returns the operator's current DKV database (nil before deploy) so
+// the harness can wait for its background tasks and keep the database of a
+// previous deployment reachable across a redeploy.
+func (o *Operator) VerifDKV() *dkv.DB { return o.db }
